@@ -119,15 +119,40 @@ def curve_owns_arrays(ctx, chk, rule="R15.10", fns=(ROCQ,)):
     fnr / fpr / thresholds array changes when the caller re-uses that array, and its rates then no longer belong to its thresholds."""
     from ..alias import construction_aliases
     n = 0
+    import ast as _ast
     for q in fns:
         fi = ctx.db.function(q)
-        for call, slots in construction_aliases(fi.node, {"ROCCurve"}):
+        sites = [(q, fi, call, slots) for call, slots in construction_aliases(fi.node, {"ROCCurve", "cls"})]
+        if not sites:
+            # the curve is built by a helper / alternative constructor the function calls (ROCCurve.from_scores(...), _make_curve(...)):
+            # one call level down; what the helper's curve shares with the HELPER's parameters is mapped back through the arguments
+            # the function passes (an array the function computed itself aliases none of its own arguments)
+            called = {n.func.attr if isinstance(n.func, _ast.Attribute) else getattr(n.func, "id", None) for n in _ast.walk(fi.node) if isinstance(n, _ast.Call)}
+            for g in ctx.db.all_functions():
+                if g is fi or g.module is not fi.module or g.name not in called:
+                    continue
+                inner = construction_aliases(g.node, {"ROCCurve", "cls"})
+                if not inner:
+                    continue
+                gparams = [a.arg for a in g.node.args.posonlyargs + g.node.args.args if a.arg not in ("self", "cls")]
+                for ccall, cslots in construction_aliases(fi.node, {g.name}):
+                    actual = {}
+                    for k, al in cslots.items():
+                        if k.startswith("arg") and k[3:].isdigit():
+                            if int(k[3:]) < len(gparams):
+                                actual[gparams[int(k[3:])]] = al
+                        else:
+                            actual[k] = al
+                    for call, slots in inner:
+                        mapped = {k: set().union(*[actual.get(p_, set()) for p_ in al]) if al else set() for k, al in slots.items()}
+                        sites.append((q, fi, ccall, mapped))
+        for q_, fi_, call, slots in sites:
             for k, al in sorted(slots.items()):
                 n += 1
-                inst = "%s:ROCCurve.%s" % (q.split(".")[-1], k)
+                inst = "%s:ROCCurve.%s" % (q_.split(".")[-1], k)
                 if al:
-                    chk.violation(rule, q, inst + ":aliases-" + "-".join(sorted(al)), "ROCCurve(%s=...) may share storage with the caller's `%s` (no-copy conversion / view)" % (k, ", ".join(sorted(al))),
-                                  "freshly computed arrays", "%s:%d" % (fi.module.relpath, call.lineno))
+                    chk.violation(rule, q_, inst + ":aliases-" + "-".join(sorted(al)), "ROCCurve(%s=...) may share storage with the caller's `%s` (no-copy conversion / view)" % (k, ", ".join(sorted(al))),
+                                  "freshly computed arrays", "%s:%d" % (fi_.module.relpath, call.lineno))
                 else:
                     chk.hold(rule, inst, "aliases no argument", nontrivial=False)
     if n == 0:
